@@ -1,7 +1,7 @@
 (** C03 — property theorems only.  Each is closed by [exact] of a lemma in Proofs*.v and followed by
     [Print Assumptions]. [check_operation_document] is the model of C03/Model.v that the correspondence
     run ties to crates/checker; [rule_ok] / [rule_ok_vis] are the reference validator of C03/Spec.v. *)
-From V Require Import Base.Util Gql.Ast C03.Model C03.Spec C03.Witness C03.Proofs.
+From V Require Import Base.Util Gql.Ast C03.Model C03.Spec C03.Witness C03.Proofs C03.Proofs2 C03.Proofs3 C03.Proofs4 C03.Proofs5.
 
 (** document-level rules: no guard *)
 Theorem C03_sound_unique_op_names : forall S D,
@@ -35,6 +35,76 @@ Theorem C03_sound_fragment_definition_targets : forall S D,
           (doc_fragdefs D) = true.
 Proof. exact fragment_definition_targets_sound. Qed.
 Print Assumptions C03_sound_fragment_definition_targets.
+
+(** The main theorem. [schema_wf S]: the part of "the schema passed check" that is used (distinct argument /
+    input-field names, at most one schema definition). [rule_ok_vis]: the rule read on every site reached by
+    following spreads from the operations (Spec.v [vis_op_sites]) — all sites of the operations' own selection
+    sets, of inline fragments with and without type condition, of every fragment spread there (transitively, in the
+    scope of the spreading operation's variables), directive lists at all six locations, argument values down to
+    nested list / input-object literals — except the contents of a fragment whose type condition is the interface
+    type it is spread in. The subscription rule is not covered (see design/C03.md). *)
+Theorem C03_sound : forall S D,
+  schema_wf S = true -> check_operation_document S D = [] ->
+  forall r, r <> R_single_subscription_root -> rule_ok_vis S D r = true.
+Proof. exact sound_vis. Qed.
+Print Assumptions C03_sound.
+
+(** named instances *)
+Theorem C03_sound_fields_exist : forall S D,
+  schema_wf S = true -> check_operation_document S D = [] -> rule_ok_vis S D R_fields_exist = true.
+Proof. intros S D Hw Hc. apply (sound_vis S D Hw Hc). discriminate. Qed.
+Print Assumptions C03_sound_fields_exist.
+
+Theorem C03_sound_leaf_vs_composite : forall S D,
+  schema_wf S = true -> check_operation_document S D = [] -> rule_ok_vis S D R_leaf_vs_composite = true.
+Proof. intros S D Hw Hc. apply (sound_vis S D Hw Hc). discriminate. Qed.
+Print Assumptions C03_sound_leaf_vs_composite.
+
+Theorem C03_sound_arguments : forall S D,
+  schema_wf S = true -> check_operation_document S D = [] ->
+  rule_ok_vis S D R_args_defined = true /\ rule_ok_vis S D R_required_args = true /\ rule_ok_vis S D R_literal_types = true.
+Proof. intros S D Hw Hc. repeat split; apply (sound_vis S D Hw Hc); discriminate. Qed.
+Print Assumptions C03_sound_arguments.
+
+Theorem C03_sound_variables : forall S D,
+  schema_wf S = true -> check_operation_document S D = [] ->
+  rule_ok_vis S D R_vars_defined = true /\ rule_ok_vis S D R_var_usage_compatible = true.
+Proof. intros S D Hw Hc. repeat split; apply (sound_vis S D Hw Hc); discriminate. Qed.
+Print Assumptions C03_sound_variables.
+
+Theorem C03_sound_fragments : forall S D,
+  schema_wf S = true -> check_operation_document S D = [] ->
+  rule_ok_vis S D R_fragment_targets = true /\ rule_ok_vis S D R_spreads_defined = true
+  /\ rule_ok_vis S D R_no_cycles = true /\ rule_ok_vis S D R_spread_possible = true.
+Proof. intros S D Hw Hc. repeat split; apply (sound_vis S D Hw Hc); discriminate. Qed.
+Print Assumptions C03_sound_fragments.
+
+Theorem C03_sound_directives : forall S D,
+  schema_wf S = true -> check_operation_document S D = [] ->
+  rule_ok_vis S D R_directives_defined = true /\ rule_ok_vis S D R_directives_location = true
+  /\ rule_ok_vis S D R_directives_unique = true.
+Proof. intros S D Hw Hc. repeat split; apply (sound_vis S D Hw Hc); discriminate. Qed.
+Print Assumptions C03_sound_directives.
+
+(** check_value alone: an accepted value has the expected type ("Values of Correct Type", with the input
+    coercions) and every variable in it is defined and usable at its position *)
+Theorem C03_check_value_sound : forall S vars, schema_wf S = true -> forall v t,
+  check_value S vars v t = [] ->
+  lit_ok S v t = true /\ forall ld, Forall (use_ok vars) (var_uses false S v (Some t) ld).
+Proof. exact check_value_sound. Qed.
+Print Assumptions C03_check_value_sound.
+
+(** the hypotheses are satisfiable by a non-trivial document; the unguarded statement is false *)
+Theorem C03_guard_satisfiable :
+  schema_wf w_schema_0 = true /\ check_operation_document w_schema_0 w_doc_14 = []
+  /\ Nat.ltb 40 (length (flat_map (vis_op_sites w_schema_0 w_doc_14) (doc_ops w_doc_14))) = true.
+Proof. destruct guard_satisfiable as [A [_ [_ [B C]]]]. auto. Qed.
+Print Assumptions C03_guard_satisfiable.
+
+Theorem C03_sound_full_refuted :
+  ~ (forall S D, schema_wf S = true -> check_operation_document S D = [] -> forall r, rule_ok S D r = true).
+Proof. exact sound_full_refuted. Qed.
+Print Assumptions C03_sound_full_refuted.
 
 (** check_type_compatibility is the specification's AreTypesCompatible *)
 Theorem C03_type_compat_is_AreTypesCompatible : forall vt et, type_compat vt et = types_compatible vt et.
